@@ -33,7 +33,7 @@ class Unit:
     """one function under contract, discharged in one CBMC run"""
     def __init__(self, name, inst, target, mode='bp', replace=(), unwind=None, extra=(), bounded=None, harness=None,
                  uchecks=False, timeout=None, clause=None, defines=(), object_bits=None, nondet_static=False, no_canary=False,
-                 covers=None, unwind_loops=None, tier='quick', lemma=None, gi_extra=(), waive=()):
+                 covers=None, unwind_loops=None, tier='quick', lemma=None, gi_extra=(), waive=(), plain=False):
         self.waive = list(waive)        # regexes on CBMC check descriptions that are NOT obligations of this unit (e.g. --conversion-check
                                         # on signed<->unsigned integer conversions, which are well defined / modular in C++); a matching
                                         # FAILED check is listed under 'waived' in the evidence instead of failing the unit
@@ -52,6 +52,7 @@ class Unit:
                                                        # unwound completely before dfcc (constant trip count; else set bounded=)
         self.tier = tier
         self.lemma = lemma
+        self.plain = plain   # no contract instrumentation: assume pre_, run the code with all loops unwound, assert post_ (bounded units)
         self.gi_extra = list(gi_extra)  # extra goto-instrument options (e.g. --no-malloc-may-fail for heap units: C library model options are fixed when dfcc links the library)
 
 class Lemma:
@@ -159,10 +160,14 @@ class Run:
         if unit.harness:
             lines.append(unit.harness)
         call = '%s(%s)' % (cname, ', '.join(args))
+        if unit.plain:
+            lines.append('  __CPROVER_assume(pre_%s(%s));' % (cname, ', '.join(args)))
         if f['ret'] != 'void':
             lines.append('  %s = %s;' % (f['ret_decl'].replace('$', 'r_ret'), call))
         else:
             lines.append('  %s;' % call)
+        if unit.plain:
+            lines.append('  __CPROVER_assert(post_%s(%s), "postcondition of %s (plain bounded unit)");' % (cname, ', '.join(args + ['r_ret']), cname))
         if not unit.no_canary:
             lines.append('  __CPROVER_assert(0, "VERIF_CANARY reachability of the end of the harness");')
         lines.append('  return 0;')
@@ -181,7 +186,13 @@ class Run:
             cname = self.resolve_target(info, unit.target)
             res['cname'] = cname
             res['source'] = '%s:%s' % (info['meta']['functions'][cname]['file'], info['meta']['functions'][cname]['line'])
-            reps = [self.resolve_target(info, r) for r in unit.replace]
+            reps = []
+            for r in unit.replace:
+                try:
+                    reps.append(self.resolve_target(info, r))
+                except Undecided:
+                    # callee contract marked @optional whose function is no longer called: nothing to replace
+                    res.setdefault('replace_skipped', []).append(r)
             ud = os.path.join(self.work, 'u_' + re.sub(r'\W+', '_', unit.name))
             os.makedirs(ud, exist_ok=True)
             hc = os.path.join(ud, 'h.c')
@@ -192,7 +203,15 @@ class Run:
             if rc != 0: raise Undecided('goto-cc failed for %s: %s' % (unit.name, (err + out)[-3000:]))
             # code loops without a loop contract must be unwound before dfcc (constant-trip loops only; see README)
             rc, cg, err, dt = sh(['goto-instrument', '--reachable-call-graph', os.path.join(ud, 'h.gb')], timeout=120)
-            reach = set(re.findall(r'-> (\S+)', cg)) | {cname}
+            edges = {}
+            for a_, b_ in re.findall(r'^(\S+) -> (\S+)$', cg, re.M): edges.setdefault(a_, set()).add(b_)
+            reach = set(); todo = ['main']
+            while todo:
+                x = todo.pop()
+                if x in reach: continue
+                reach.add(x)
+                if x in reps: continue          # body replaced by its contract: callees not part of this unit
+                todo.extend(edges.get(x, ()))
             rc, out, err, dt = sh(['goto-instrument', '--show-loops', os.path.join(ud, 'h.gb')], timeout=120)
             fns = info['meta']['functions']
             uws = []; res['unwound_code_loops'] = []
@@ -219,16 +238,21 @@ class Run:
             for r in reps: gi += ['--replace-call-with-contract', r]
             gi += unit.gi_extra
             gi += ['--apply-loop-contracts', src_gb, os.path.join(ud, 'hi.gb')]
-            rc, out, err, dt = sh(gi, timeout=600, mem_gb=16)
-            if rc != 0: raise Undecided('goto-instrument failed for %s: %s' % (unit.name, (err + out)[-3000:]))
-            open(os.path.join(ud, 'gi.log'), 'w').write(out + err)
+            if unit.plain:
+                if not unit.bounded: raise Undecided('plain units must be labelled bounded')
+                shutil.copy(src_gb, os.path.join(ud, 'hi.gb'))
+                gi = ['(no contract instrumentation: assume pre_, assert post_)', '', '']
+            else:
+                rc, out, err, dt = sh(gi, timeout=600, mem_gb=16)
+                if rc != 0: raise Undecided('goto-instrument failed for %s: %s' % (unit.name, (err + out)[-3000:]))
+                open(os.path.join(ud, 'gi.log'), 'w').write(out + err)
             cb = ['cbmc', os.path.join(ud, 'hi.gb')] + CBMC_CHECKS + ['--json-ui', '--trace']
             if unit.uchecks: cb.append('--unsigned-overflow-check')
             if unit.unwind: cb += ['--unwind', str(unit.unwind), '--unwinding-assertions']
             if unit.object_bits: cb += ['--object-bits', str(unit.object_bits)]
             cb += unit.extra
             tmo = unit.timeout or (300 if self.tier == 'quick' else 1800)
-            rc, out, err, dt = sh(cb, timeout=tmo, mem_gb=12)
+            rc, out, err, dt = sh(cb, timeout=tmo, mem_gb=24)
             res['solver_seconds'] = round(dt, 2)
             res['checker_cmd'] = ' '.join(gi[:-2]) + ' ; ' + ' '.join(['cbmc'] + cb[2:])
             open(os.path.join(ud, 'cbmc.json'), 'w').write(out)
@@ -264,7 +288,9 @@ class Run:
             res['names'] = names
             res['samples'] = ['%s: %s' % (r['property'], r.get('description', '')) for r in results
                               if any(k in r['property'] for k in ('postcondition', 'loop_invariant', 'precondition'))][:4]
-            if not unit.no_canary and not canary_failed:
+            # (a FAILED obligation takes precedence: e.g. a loop invariant that fails before entry for every input is assumed
+            #  afterwards, which makes the canary unreachable -- that run is red, not vacuous)
+            if not unit.no_canary and not canary_failed and not res['failed']:
                 raise Undecided('vacuity: canary after the call is unreachable in unit %s (contradictory requires?)' % unit.name)
             if res['obligations'] == 0: raise Undecided('vacuity: zero obligations in unit %s' % unit.name)
             res['status'] = 'proved' if not res['failed'] else 'failed'
@@ -827,7 +853,7 @@ def _main(a, pid, run, seed, t0):
     if os.path.exists(ledger_path) and not a.only:
         led = json.load(open(ledger_path))
         for r in results:
-            if r['status'] == 'undecided': continue
+            if r['status'] != 'proved': continue      # a failed obligation is a violation whatever else is missing
             exp = set(led.get(r['unit'], []))
             if not exp:
                 r['status'] = 'undecided'; r['why'] = 'unit not in ledger (run --update-ledger)'; undecided.append(r); continue
